@@ -676,19 +676,19 @@ theorem level_terminates_lr (votes : Votes) (hv : ∀ p ∈ votes, 0 ≤ p.2) (h
 
 /-! ### LevelOverhangByConstituency -/
 
-/-- **Levelling by constituency is least.**  With the floors summed over the constituencies
-    (`lowestAllowedCty`) and the overall evaluator on the vote totals, the returned adjustment is the least `e ≥ 0`
-    for which the overall distribution of `n − drop + e` seats meets every floor (here the first evaluation is already
-    made at `n − drop`, so the literal reading holds without exception). -/
-theorem level_cty_is_least (cev : CtyEval) (ov : PropEval) (fuel : Nat) (cv : CVotes) (n : Nat) (prev : CSeats)
-    (adj : Nat) (h : levelOverhangCty cev ov fuel cv n prev = .ok adj) :
+/-- **Levelling by constituency is least** (any way `ovAt` of obtaining the overall distribution).  With the floors
+    summed over the constituencies (`lowestAllowedCty`), the returned adjustment is the least `e ≥ 0` for which the
+    overall distribution of `n − drop + e` seats meets every floor (here the first evaluation is already made at
+    `n − drop`, so the literal reading holds without exception). -/
+theorem level_cty_at_is_least (cev : CtyEval) (ovAt : Nat → Except Err Dist) (fuel : Nat) (cv : CVotes) (n : Nat)
+    (prev : CSeats) (adj : Nat) (h : levelOverhangCtyAt cev ovAt fuel cv n prev = .ok adj) :
     ∃ cres, cev cv n = .ok cres ∧
       nonpropDropCty (lowestAllowedCty cres prev) prev ≤ n ∧ adj ≤ fuel ∧
-      Adequate ov (voteTotals cv) [] (lowestAllowedCty cres prev)
-        (n - nonpropDropCty (lowestAllowedCty cres prev) prev + adj) ∧
-      ∀ e, e < adj → ∃ r, ov (voteTotals cv) (n - nonpropDropCty (lowestAllowedCty cres prev) prev + e) [] [] = .ok r ∧
+      (∃ r, ovAt (n - nonpropDropCty (lowestAllowedCty cres prev) prev + adj) = .ok r ∧
+        MeetsFloors r (lowestAllowedCty cres prev)) ∧
+      ∀ e, e < adj → ∃ r, ovAt (n - nonpropDropCty (lowestAllowedCty cres prev) prev + e) = .ok r ∧
         ¬ MeetsFloors r (lowestAllowedCty cres prev) := by
-  unfold levelOverhangCty at h
+  unfold levelOverhangCtyAt at h
   cases hev : cev cv n with
   | error e => rw [hev] at h; simp [bind, Except.bind] at h
   | ok cres =>
@@ -700,12 +700,12 @@ theorem level_cty_is_least (cev : CtyEval) (ov : PropEval) (fuel : Nat) (cv : CV
     by_cases hnd : n < drop
     · simp [hnd] at h
     · simp only [hnd, ↓reduceIte] at h
-      cases hov : ov (voteTotals cv) (n - drop) [] [] with
+      cases hov : ovAt (n - drop) with
       | error e => rw [hov] at h; simp at h
       | ok prop =>
         rw [hov] at h
         simp only at h
-        cases hl : levelLoop (fun h => ov (voteTotals cv) h [] []) floors fuel (n - drop) prop with
+        cases hl : levelLoop ovAt floors fuel (n - drop) prop with
         | error e => rw [hl] at h; simp at h
         | ok H =>
           rw [hl] at h
@@ -731,19 +731,56 @@ theorem level_cty_is_least (cev : CtyEval) (ov : PropEval) (fuel : Nat) (cv : CV
               rw [(belowMin_false_iff _ _).mpr hm] at hrb'
               exact Bool.false_ne_true hrb'
 
+/-- … with an overall evaluator given: it distributes the nationwide vote totals -/
+theorem level_cty_is_least (cev : CtyEval) (ov : PropEval) (fuel : Nat) (cv : CVotes) (n : Nat) (prev : CSeats)
+    (adj : Nat) (h : levelOverhangCty cev ov fuel cv n prev = .ok adj) :
+    ∃ cres, cev cv n = .ok cres ∧
+      nonpropDropCty (lowestAllowedCty cres prev) prev ≤ n ∧ adj ≤ fuel ∧
+      Adequate ov (voteTotals cv) [] (lowestAllowedCty cres prev)
+        (n - nonpropDropCty (lowestAllowedCty cres prev) prev + adj) ∧
+      ∀ e, e < adj → ∃ r, ov (voteTotals cv) (n - nonpropDropCty (lowestAllowedCty cres prev) prev + e) [] [] = .ok r ∧
+        ¬ MeetsFloors r (lowestAllowedCty cres prev) :=
+  level_cty_at_is_least cev (fun h => ov (voteTotals cv) h [] []) fuel cv n prev adj h
+
+/-- … with the default overall evaluator (`overall_evaluator=None`): the constituency evaluator itself, re-run for the
+    enlarged house and merged over the constituencies -/
+theorem level_cty_default_is_least (cev : CtyEval) (fuel : Nat) (cv : CVotes) (n : Nat) (prev : CSeats)
+    (adj : Nat) (h : levelOverhangCtyDefault cev fuel cv n prev = .ok adj) :
+    ∃ cres, cev cv n = .ok cres ∧
+      nonpropDropCty (lowestAllowedCty cres prev) prev ≤ n ∧ adj ≤ fuel ∧
+      (∃ r, cev cv (n - nonpropDropCty (lowestAllowedCty cres prev) prev + adj) = .ok r ∧
+        MeetsFloors (mergeDists r) (lowestAllowedCty cres prev)) ∧
+      ∀ e, e < adj → ∃ r, cev cv (n - nonpropDropCty (lowestAllowedCty cres prev) prev + e) = .ok r ∧
+        ¬ MeetsFloors (mergeDists r) (lowestAllowedCty cres prev) := by
+  obtain ⟨cres, hc, h1, h2, ⟨r, hr, hm⟩, hall⟩ :=
+    level_cty_at_is_least cev (fun h => (cev cv h).map mergeDists) fuel cv n prev adj h
+  refine ⟨cres, hc, h1, h2, ?_, ?_⟩
+  · cases hcr : cev cv (n - nonpropDropCty (lowestAllowedCty cres prev) prev + adj) with
+    | error e => simp only [hcr, Except.map] at hr; exact absurd hr (by simp)
+    | ok r0 =>
+      simp only [hcr, Except.map, Except.ok.injEq] at hr
+      exact ⟨r0, rfl, by rw [hr]; exact hm⟩
+  · intro e he
+    obtain ⟨r', hr', hnm⟩ := hall e he
+    cases hcr : cev cv (n - nonpropDropCty (lowestAllowedCty cres prev) prev + e) with
+    | error e' => simp only [hcr, Except.map] at hr'; exact absurd hr' (by simp)
+    | ok r0 =>
+      simp only [hcr, Except.map, Except.ok.injEq] at hr'
+      exact ⟨r0, rfl, by rw [hr']; exact hnm⟩
+
 open Gen.Divisor in
-/-- **Where the by-constituency floors fall short** (recorded finding
-    `C15-by-constituency-direct-seats-without-local-share`): D'Hondt, constituency 0 (3 seats, votes 60:30) gives
-    party 1 one proportional seat, constituency 1 (2 seats, votes 90:10) gives it none, but party 1 holds the direct
-    seat of constituency 1.  `lowest_allowed` only looks at the parties of each constituency's proportional result, so
-    party 1's floor is 1 instead of 1 + 1, and the adjustment is 0. -/
-theorem level_cty_direct_seat_ignored_witness :
+/-- **Direct seats without a local proportional seat count** (the input of the repaired finding
+    `C15-by-constituency-direct-seats-without-local-share`, fix fb7e169): D'Hondt, constituency 0 (3 seats, votes 60:30)
+    gives party 1 one proportional seat, constituency 1 (2 seats, votes 90:10) gives it none, but party 1 holds the
+    direct seat of constituency 1.  Its floor is now 1 + 1 = 2 (it was 1 before the repair, with adjustment 0), and the
+    house grows by 4: the nationwide distribution of 9 seats (votes 150:40) is the first to give party 1 two seats. -/
+theorem level_cty_direct_seat_counted :
     byConstituencyFixed (haEval d_hondt) [(0, 3), (1, 2)] [(0, [(0, 60), (1, 30)]), (1, [(0, 90), (1, 10)])] 5
       = .ok [(0, [(.cand 0, 2), (.cand 1, 1)]), (1, [(.cand 0, 2)])] ∧
     lowestAllowedCty [(0, [(.cand 0, 2), (.cand 1, 1)]), (1, [(.cand 0, 2)])] [(1, [(1, 1)])]
-      = [(.cand 0, 4), (.cand 1, 1)] ∧
-    levelOverhangCty (byConstituencyFixed (haEval d_hondt) [(0, 3), (1, 2)]) (haEval d_hondt) 400
-      [(0, [(0, 60), (1, 30)]), (1, [(0, 90), (1, 10)])] 5 [(1, [(1, 1)])] = .ok 0 := by
+      = [(.cand 0, 4), (.cand 1, 2)] ∧
+    levelOverhangCty (byConstituencyFixed (haEval d_hondt) [(0, 3), (1, 2)]) (haEval d_hondt) 200
+      [(0, [(0, 60), (1, 30)]), (1, [(0, 90), (1, 10)])] 5 [(1, [(1, 1)])] = .ok 4 := by
   refine ⟨by decide +kernel, by decide +kernel, by decide +kernel⟩
 
 /-! ### non-vacuity: concrete inputs meeting the hypotheses of the conditional theorems -/
@@ -787,6 +824,10 @@ example : levelOverhang lrHareEval 400 [(0, 500), (1, 300), (2, 100)] 9 [(0, 1),
 /-- by constituency: two constituencies with 3 and 2 seats, D'Hondt, party 1 holds both seats of constituency 1 -/
 example : levelOverhangCty (byConstituencyFixed (haEval d_hondt) [(0, 3), (1, 2)]) (haEval d_hondt) 400
     [(0, [(0, 60), (1, 30)]), (1, [(0, 50), (1, 40)])] 5 [(1, [(1, 2)])] = .ok 2 := by decide +kernel
+/-- the default overall evaluator (`overall_evaluator=None`) with an apportioning constituency evaluator: 5 seats
+    apportioned by D'Hondt over the constituency totals 90:100, party 1 holds a direct seat in constituency 1 -/
+example : levelOverhangCtyDefault (byConstituencyApportioned (haEval d_hondt) (haEval d_hondt)) 200
+    [(0, [(0, 60), (1, 30)]), (1, [(0, 90), (1, 10)])] 5 [(1, [(1, 1)])] = .ok 1 := by decide +kernel
 
 end Examples
 
